@@ -1342,6 +1342,28 @@ def gen_simd_kernels(repo):
     conds = re.findall(r'\b(if x (?:<|>=) max_x)', body)
     out += '/-- %s: horiz_convolution_one_row: every intrinsic / helper call with its arguments, in textual order, and the loop guards -/\n' % f
     out += 'def u8x3_sse4_one_row_skeleton : String := "%s | %s"\n\n' % (sk.replace('"', '\\"'), ' ; '.join(conds))
+    # the four-row kernel of the same file: the same loop guards, per row the same loads; coefficient pairs are cloned
+    m = re.search(r'unsafe fn horiz_convolution_four_rows<const PRECISION: i32>\(.*?\n\}', src3, re.S)
+    if not m:
+        raise TranslationError("%s: horiz_convolution_four_rows not found" % f)
+    body = re.sub(r'//[^\n]*', '', m.group(0))
+    body = re.sub(r'/\*.*?\*/', '', body, flags=re.S)
+    masks = []
+    for a in re.finditer(r'let (sh_\w+) = _mm_set_epi8\(([^;]*?)\);', body, re.S):
+        vals = [int(x) for x in a.group(2).replace('\n', ' ').split(',') if x.strip()]
+        if len(vals) != 16:
+            raise TranslationError("%s: mask %s does not have 16 entries" % (f, a.group(1)))
+        masks.append((a.group(1), list(reversed(vals))))
+    if [n for n, _ in masks] != ['sh_lo', 'sh_hi']:
+        raise TranslationError("%s: expected the masks sh_lo, sh_hi, found %s" % (f, [n for n, _ in masks]))
+    for n, v in masks:
+        out += '/-- %s: horiz_convolution_four_rows: shuffle mask %s, byte 0 first -/\n' % (f, n)
+        out += 'def u8x3_sse4_four_%s : List Int := [%s]\n\n' % (n, ', '.join(str(x) if x >= 0 else '(%d)' % x for x in v))
+    calls = re.findall(r'\b(_mm_\w+(?:::<\w+>)?|simd_utils::\w+|chunks_exact|saturating_sub|split_at)\(([^()]*(?:\([^()]*\)[^()]*)*)\)', body)
+    sk = ' ; '.join('%s(%s)' % (c, ' '.join(a.split())) for c, a in calls if not c.endswith('set_epi8'))
+    conds = re.findall(r'\b(if x (?:<|>=) max_x)', body)
+    out += '/-- %s: horiz_convolution_four_rows: every intrinsic / helper call with its arguments, in textual order, and the loop guards -/\n' % f
+    out += 'def u8x3_sse4_four_rows_skeleton : String := "%s | %s"\n\n' % (sk.replace('"', '\\"'), ' ; '.join(conds))
     # the vertical pass for 8-bit components (all four u8 pixel types)
     f = 'src/convolution/vertical_u8/sse4.rs'
     with open(os.path.join(repo, f)) as fh:
